@@ -3,6 +3,7 @@
 // argument vectors given as hex words.
 #include "common.hpp"
 
+#include <algorithm>
 #include <deque>
 #include <fstream>
 #include <memory>
@@ -40,10 +41,27 @@ struct Dest {                                 // destination variables of one ev
    std::vector<int> v;
 };
 
+// one line of a configuration in line order: 'a' = args[idx], 'g' = globs[idx], 's' = subs[idx] (the whole
+// `pa sub begin` ... `pa sub end` block: the sub handler is created, its own items are defined, then the
+// sub-group argument is added to the owning handler)
+typedef std::pair<char, size_t> Item;
+
+struct SubSpec {                              // a sub-group argument and the handler it refers to
+   std::string key;
+   bool mandatory = false, deprecated = false, abbr = true;
+   std::string card;                          // "" = none installed (a TypedArgSubGroup has no cardinality by default)
+   std::vector<std::pair<char, std::string>> constraints;
+   std::vector<ArgSpec> args;
+   std::vector<GlobSpec> globs;
+   std::vector<Item> items;                   // the sub handler's own lines in order
+};
+
 struct Config {
    bool abbr = true;
    std::vector<ArgSpec> args;
    std::vector<GlobSpec> globs;
+   std::vector<SubSpec> subs;
+   std::vector<Item> items;                   // the main handler's lines in order
 };
 
 static std::vector<int> csvInts(const std::string& s) {
@@ -64,6 +82,19 @@ static void initDest(const ArgSpec& a, Dest& d) {
    else if (a.kind == "vec") d.v = csvInts(a.init);
 }
 
+static void applyCardinality(cpa::detail::TypedArgBase* t, const std::string& card) {
+   auto p = card.find(':');
+   std::string k = card.substr(0, p);
+   if (k == "none") t->setCardinality();
+   else if (k == "max") t->setCardinality(cpa::cardinality_max(std::stoi(card.substr(p + 1))));
+   else if (k == "exact") t->setCardinality(cpa::cardinality_exact(std::stoi(card.substr(p + 1))));
+   else if (k == "range") {
+      auto q = card.find(':', p + 1);
+      t->setCardinality(cpa::cardinality_range(std::stoi(card.substr(p + 1, q - p - 1)), std::stoi(card.substr(q + 1))));
+   }
+   else throw std::logic_error("harness: unknown cardinality " + card);
+}
+
 static void defineArg(Handler& h, const ArgSpec& a, Dest& d) {
    cpa::detail::TypedArgBase* t = nullptr;
    if (a.kind == "flag") t = h.addArgument(a.key, cpa::destination(d.f, "f"), "desc");
@@ -75,17 +106,7 @@ static void defineArg(Handler& h, const ArgSpec& a, Dest& d) {
    if (a.mandatory) t->setIsMandatory();
    if (a.vmode == "required") t->setValueMode(Handler::ValueMode::required);
    else if (a.vmode == "optional") t->setValueMode(Handler::ValueMode::optional);
-   if (!a.card.empty()) {
-      auto p = a.card.find(':');
-      std::string k = a.card.substr(0, p);
-      if (k == "none") t->setCardinality();
-      else if (k == "max") t->setCardinality(cpa::cardinality_max(std::stoi(a.card.substr(p + 1))));
-      else if (k == "exact") t->setCardinality(cpa::cardinality_exact(std::stoi(a.card.substr(p + 1))));
-      else if (k == "range") {
-         auto q = a.card.find(':', p + 1);
-         t->setCardinality(cpa::cardinality_range(std::stoi(a.card.substr(p + 1, q - p - 1)), std::stoi(a.card.substr(q + 1))));
-      }
-   }
+   if (!a.card.empty()) applyCardinality(t, a.card);
    for (auto& c : a.checks) {
       auto p = c.find(':');
       std::string k = c.substr(0, p), r = c.substr(p + 1);
@@ -120,6 +141,44 @@ static void defineGlob(Handler& h, const GlobSpec& g) {
    else if (g.kind == "differ") h.addConstraint(cpa::differ(g.keys));
    else if (g.kind == "disjoint") h.addConstraint(cpa::disjoint(g.keys));
    else throw std::logic_error("harness: unknown handler constraint " + g.kind);
+}
+
+// the run-time objects of the sub-group arguments of one evaluation.  The sub handlers are created from (and
+// therefore after) the handler that owns the sub-group argument; this object is declared after the owning
+// handler(s) inside the evaluation scope, so the sub handlers are destroyed first.  The destinations live outside.
+struct SubRun {
+   std::deque<std::unique_ptr<Handler>> handlers;
+   std::vector<cpa::detail::TypedArgBase*> targs;      // per sub-group argument j (nullptr = not defined yet)
+   explicit SubRun(size_t n) : targs(n, nullptr) {}
+};
+
+// `pa sub begin` ... `pa sub end` for sub-group argument j of cfg on the handler `owner`
+static void defineSub(Handler& owner, const Config& cfg, size_t j, std::deque<Dest>& ds, SubRun& run) {
+   const SubSpec& sp = cfg.subs[j];
+   run.handlers.emplace_back(new Handler(owner, sp.abbr ? 0 : Handler::hfNoAbbr));
+   Handler& sub = *run.handlers.back();
+   for (auto& it : sp.items) {
+      if (it.first == 'a') defineArg(sub, sp.args[it.second], ds[it.second]);
+      else defineGlob(sub, sp.globs[it.second]);
+   }
+   cpa::detail::TypedArgBase* t = owner.addArgument(sp.key, sub, "desc");
+   run.targs[j] = t;
+   if (sp.mandatory) t->setIsMandatory();
+   if (!sp.card.empty()) applyCardinality(t, sp.card);
+   for (auto& c : sp.constraints) {
+      if (c.first == 'r') t->addConstraint(cpa::requiresArg(c.second));
+      else t->addConstraint(cpa::excludes(c.second));
+   }
+   if (sp.deprecated) t->setIsDeprecated();
+}
+
+// every line of the configuration in line order on one handler
+static void defineAll(Handler& h, const Config& cfg, std::deque<Dest>& ds, std::vector<std::deque<Dest>>& sds, SubRun& run) {
+   for (auto& it : cfg.items) {
+      if (it.first == 'a') defineArg(h, cfg.args[it.second], ds[it.second]);
+      else if (it.first == 'g') defineGlob(h, cfg.globs[it.second]);
+      else defineSub(h, cfg, it.second, sds[it.second], run);
+   }
 }
 
 static std::string showDest(const std::vector<ArgSpec>& args, const std::deque<Dest>& ds) {
@@ -178,14 +237,50 @@ static const char* typeName(cpa::detail::ArgListElement::Type t) {
 int main() {
    Config cfg, building;
    bool haveCfg = false;
+   bool inSub = false;                        // between `pa sub begin` and `pa sub end`
    std::string progName = "prog";
    ::setenv("HOME", ".", 1);
    return vh::run([&](const std::vector<std::string>& t, const std::string&) -> std::string {
-      if (t.size() == 2 && t[0] == "case") { haveCfg = false; cfg = Config(); progName = "prog"; return "ok"; }
+      if (t.size() == 2 && t[0] == "case") { haveCfg = false; inSub = false; cfg = Config(); progName = "prog"; return "ok"; }
       if (t.size() < 2 || t[0] != "pa") return "bad-op";
       if (t[1] == "cfg" && t.size() >= 3 && t[2] == "begin") {
          building = Config();
          building.abbr = vh::kv(t, "abbr", "1") == "1";
+         inSub = false;
+         return "ok";
+      }
+      if (t[1] == "sub" && t.size() >= 3 && t[2] == "begin") {
+         // pa sub begin key=<spec> [mandatory] [card=...] [abbr=0|1] [deprecated] [req=<k1;k2>] [excl=<k1;k2>]
+         if (inSub) return "bad-op";
+         SubSpec sp;
+         bool haveKey = false;
+         for (size_t k = 3; k < t.size(); ++k) {
+            const std::string& x = t[k];
+            auto p = x.find('=');
+            std::string key = x.substr(0, p), val = p == std::string::npos ? "" : x.substr(p + 1);
+            if (key == "key") { sp.key = val; haveKey = true; }
+            else if (key == "mandatory") sp.mandatory = true;
+            else if (key == "deprecated") sp.deprecated = true;
+            else if (key == "abbr") sp.abbr = val == "1";
+            else if (key == "card") {
+               std::string kd = val.substr(0, val.find(':'));
+               size_t colons = std::count(val.begin(), val.end(), ':');
+               if (!((kd == "none" && colons == 0) || (kd == "max" && colons == 1) || (kd == "exact" && colons == 1) || (kd == "range" && colons == 2)))
+                  return "bad-op";
+               sp.card = val;
+            }
+            else if (key == "req") sp.constraints.emplace_back('r', val);
+            else if (key == "excl") sp.constraints.emplace_back('x', val);
+         }
+         if (!haveKey) return "bad-op";
+         building.subs.push_back(sp);
+         inSub = true;
+         return "ok";
+      }
+      if (t[1] == "sub" && t.size() == 3 && t[2] == "end") {
+         if (!inSub) return "bad-op";
+         building.items.emplace_back('s', building.subs.size() - 1);
+         inSub = false;
          return "ok";
       }
       if (t[1] == "arg") {
@@ -209,22 +304,47 @@ int main() {
             else if (key == "init") a.init = val;
             else return "bad-op";
          }
-         building.args.push_back(a);
+         if (inSub) {
+            SubSpec& sp = building.subs.back();
+            sp.args.push_back(a);
+            sp.items.emplace_back('a', sp.args.size() - 1);
+         } else {
+            building.args.push_back(a);
+            building.items.emplace_back('a', building.args.size() - 1);
+         }
          return "ok";
       }
-      if (t[1] == "glob" && t.size() == 4) { building.globs.push_back({t[2], t[3]}); return "ok"; }
+      if (t[1] == "glob" && t.size() == 4) {
+         if (t[2] != "allof" && t[2] != "anyof" && t[2] != "oneof" && t[2] != "differ" && t[2] != "disjoint") return "bad-op";
+         if (inSub) {
+            SubSpec& sp = building.subs.back();
+            sp.globs.push_back({t[2], t[3]});
+            sp.items.emplace_back('g', sp.globs.size() - 1);
+         } else {
+            building.globs.push_back({t[2], t[3]});
+            building.items.emplace_back('g', building.globs.size() - 1);
+         }
+         return "ok";
+      }
       if (t[1] == "cfg" && t.size() >= 3 && t[2] == "end") {
          // dry run of the definitions: report set-up errors (duplicate keys, invalid constraint lists ...)
+         // (every line in line order; a sub-group argument is added at its `pa sub end`, after the sub handler's lines)
+         if (inSub) return "bad-op";
          std::deque<Dest> ds(building.args.size());
+         std::vector<std::deque<Dest>> sds;
+         for (auto& sp : building.subs) sds.emplace_back(sp.args.size());
+         for (size_t k = 0; k < building.args.size(); ++k) initDest(building.args[k], ds[k]);
+         for (size_t j = 0; j < building.subs.size(); ++j)
+            for (size_t k = 0; k < building.subs[j].args.size(); ++k) initDest(building.subs[j].args[k], sds[j][k]);
          std::string err = vh::guarded([&] {
             Handler h(building.abbr ? 0 : Handler::hfNoAbbr);
-            for (size_t k = 0; k < building.args.size(); ++k) { initDest(building.args[k], ds[k]); defineArg(h, building.args[k], ds[k]); }
-            for (auto& g : building.globs) defineGlob(h, g);
+            SubRun run(building.subs.size());
+            defineAll(h, building, ds, sds, run);
          });
          if (!err.empty()) { haveCfg = false; return err; }
          cfg = building;
          haveCfg = true;
-         return "ok args=" + std::to_string(cfg.args.size());
+         return "ok args=" + std::to_string(cfg.args.size()) + (cfg.subs.empty() ? "" : " subs=" + std::to_string(cfg.subs.size()));
       }
       if (t[1] == "prog" && t.size() == 3) { vh::hexDecodeStr(t[2], progName); return "ok"; }
       if (t[1] == "tokens") {
@@ -308,13 +428,14 @@ int main() {
          // pa eval [file=<hexline>|<hexline> | fileraw=<hex bytes of the file>] [env=<hex>] -- words...
          // pa group <member of arg 0><member of arg 1>... [order=<perm of members>] -- words...
          size_t k = 2;
-         std::string fileSpec, envSpec, membership, order;
+         std::string fileSpec, envSpec, membership, submembers, order;
          bool haveFile = false, haveEnv = false, fileRaw = false;
          for (; k < t.size() && t[k] != "--"; ++k) {
             if (t[k].compare(0, 5, "file=") == 0) { fileSpec = t[k].substr(5); haveFile = true; }
             else if (t[k].compare(0, 8, "fileraw=") == 0) { fileSpec = t[k].substr(8); haveFile = true; fileRaw = true; }
             else if (t[k].compare(0, 4, "env=") == 0) { envSpec = t[k].substr(4); haveEnv = true; }
             else if (t[k].compare(0, 8, "members=") == 0) membership = t[k].substr(8);
+            else if (t[k].compare(0, 11, "submembers=") == 0) submembers = t[k].substr(11);
             else if (t[k].compare(0, 6, "order=") == 0) order = t[k].substr(6);
             else if (t[k].compare(0, 2, "x-") == 0) continue;   // generator annotations (expectation, label)
             else return "bad-op";
@@ -325,6 +446,11 @@ int main() {
          Argv av(ws);
          std::deque<Dest> ds(cfg.args.size());
          for (size_t a = 0; a < cfg.args.size(); ++a) initDest(cfg.args[a], ds[a]);
+         std::vector<std::deque<Dest>> sds;                 // destinations of the sub handlers
+         for (auto& sp : cfg.subs) sds.emplace_back(sp.args.size());
+         for (size_t j = 0; j < cfg.subs.size(); ++j)
+            for (size_t a = 0; a < cfg.subs[j].args.size(); ++a) initDest(cfg.subs[j].args[a], sds[j][a]);
+         std::vector<int> called(cfg.subs.size(), 0);       // hasValue() of the sub-group arguments after the evaluation
          std::string err;
          if (t[1] == "eval") {
             int flags = cfg.abbr ? 0 : Handler::hfNoAbbr;
@@ -345,10 +471,11 @@ int main() {
             }
             err = vh::guarded([&] {
                Handler h(flags);
+               SubRun run(cfg.subs.size());                 // after h: the sub handlers are destroyed before it
                if (haveEnv) h.checkEnvVarArgs("CELMA_VERIF_ARGS");
-               for (size_t a = 0; a < cfg.args.size(); ++a) defineArg(h, cfg.args[a], ds[a]);
-               for (auto& g : cfg.globs) defineGlob(h, g);
+               defineAll(h, cfg, ds, sds, run);
                h.evalArguments(av.argc, av.argv.get());
+               for (size_t j = 0; j < cfg.subs.size(); ++j) called[j] = run.targs[j]->hasValue() ? 1 : 0;
             });
             if (haveFile) ::unlink((".progargs/" + progBase(progName) + ".pa").c_str());
             if (haveEnv) ::unsetenv("CELMA_VERIF_ARGS");
@@ -358,20 +485,31 @@ int main() {
             std::string gl;
             auto sl = membership.find('/');
             if (sl != std::string::npos) { gl = membership.substr(sl + 1); membership = membership.substr(0, sl); }
-            if (membership.size() != cfg.args.size() || gl.size() != cfg.globs.size()) return "bad-op";
-            if (order.empty()) { for (char c = '0'; c <= '9'; ++c) if (membership.find(c) != std::string::npos || gl.find(c) != std::string::npos) order += c; }
+            // submembers[j] = digit naming the member that owns sub-group argument j (its sub handler is
+            // constructed from that member handler)
+            if (membership.size() != cfg.args.size() || gl.size() != cfg.globs.size() || submembers.size() != cfg.subs.size()) return "bad-op";
+            if (order.empty()) { for (char c = '0'; c <= '9'; ++c) if (membership.find(c) != std::string::npos || gl.find(c) != std::string::npos || submembers.find(c) != std::string::npos) order += c; }
+            for (const std::string* m : {&membership, &gl, &submembers, &order})
+               for (char c : *m) if (c < '0' || c > '9') return "bad-op";
             Groups::instance().removeAllArgHandler();
             err = vh::guarded([&] {
                std::vector<std::shared_ptr<Handler>> hs(10);
                for (char c : order) hs[c - '0'] = Groups::instance().getArgHandler(std::string("g") + c, cfg.abbr ? 0 : Handler::hfNoAbbr);
+               SubRun run(cfg.subs.size());
+               // all plain arguments first (index order), then the sub-group arguments (j order), then the handler constraints
                for (size_t a = 0; a < cfg.args.size(); ++a) defineArg(*hs[membership[a] - '0'], cfg.args[a], ds[a]);
+               for (size_t j = 0; j < cfg.subs.size(); ++j) defineSub(*hs[submembers[j] - '0'], cfg, j, sds[j], run);
                for (size_t g = 0; g < cfg.globs.size(); ++g) defineGlob(*hs[gl[g] - '0'], cfg.globs[g]);
                Groups::instance().evalArguments(av.argc, av.argv.get());
+               for (size_t j = 0; j < cfg.subs.size(); ++j) called[j] = run.targs[j]->hasValue() ? 1 : 0;
             });
             Groups::instance().removeAllArgHandler();
          }
          if (!err.empty()) return err;
-         return "ok" + showDest(cfg.args, ds);
+         std::string out = "ok" + showDest(cfg.args, ds);
+         for (size_t j = 0; j < cfg.subs.size(); ++j)
+            out += " | s" + std::to_string(j) + "=" + std::to_string(called[j]) + showDest(cfg.subs[j].args, sds[j]);
+         return out;
       }
       return "bad-op";
    });
